@@ -82,6 +82,35 @@ def single_edges_specs(b, fl, c):
     return ok and over == [("multi_edges", 0)], over
 
 
+
+def subgraph_edge_source(ctx, prog, flows, rid, consequence):
+    """where get_subgraph's candidate edges come from: the whole edge store (get_all_edges), selected by membership
+    only.  A per-node or fallible accessor has its own contract (NodeNotFound for an unknown name, a self-loop listed
+    twice on directed graphs, a particular key orientation).  Shared with C12 (modularity counts L_c on the result) and
+    C20 (the constructor result is unwrapped: a repeated edge makes it DuplicateEdge)."""
+    b = prog.one("subgraph::Graph::get_subgraph")
+    fl = flows.of(b)
+    ctor = prog.one("creation::Graph::new_from_nodes_and_edges")
+    calls = [t for t in b.calls() if t.callee and t.callee.target_path(prog) == ctor.path]
+    if len(calls) != 1:
+        ctx.anchor_lost(rid, "one new_from_nodes_and_edges call in get_subgraph")
+        return
+    c = calls[0]
+    esl = flows.slice(b.path, fl._op_reads(c.args[1]), up=False, down=True, data_only=False)
+    efs = fields_in(esl)
+    own = {b.path} | {cb_.path for cb_ in prog.closures_of(b.path)}
+    direct = set()
+    for (bp_, n_) in esl:
+        if bp_ in own and n_[0] == "CALL":
+            tt_ = prog.bodies[bp_].blocks[n_[1]].term
+            tp_ = tt_.callee.target_path(prog) if tt_.callee else None
+            if tp_ and prog.items[tp_]["kind"] != "closure":
+                direct.add(short(tp_))
+    other = sorted(x.split("::")[-1] for x in direct if x.startswith("graph::") and x.split("::")[-1] not in ("get_all_edges", "has_node", "has_nodes", "get_all_nodes", "get_all_node_names", "new_from_nodes_and_edges"))
+    adj_src = sorted(efs & {"successors", "predecessors", "successors_map", "predecessors_map", "successors_vec", "predecessors_vec", "edges_map"})
+    ctx.require(any(x.endswith("get_all_edges") for x in direct) and not other and not adj_src, rid, "edge-source|get_subgraph", "get_subgraph's candidate edges are get_all_edges(): every stored edge once",
+                "get_subgraph takes its candidate edges from %s instead of get_all_edges() alone -- an accessor with its own contract (an error for an unknown name, a self-loop listed twice, a key orientation): %s" % (other + adj_src, consequence), loc_str(c.span))
+
 def run(ctx):
     prog = ctx.prog
     flows = Flows(prog)
@@ -211,6 +240,7 @@ def run(ctx):
             uses_ce = True  # `ce` was found among the bodies reachable from to_single_edges
             ctx.require(okc and uses_ce and "edges" in efs, "R-C15-4", "edges|to_single_edges", "one edge per key of the pair store, named by the key, weight = sum over that key's list", "to_single_edges does not build (key.0, key.1, sum of weights) per pair", loc_str(c.span))
         elif name == "get_subgraph":
+            subgraph_edge_source(ctx, prog, flows, "R-C15-4", "the induced subgraph loses or repeats stored edges")
             # the edge filter closure: true only if both endpoints are members
             okf = False
             detail = ""
